@@ -64,7 +64,9 @@ def ast_node_from_value(
         return _ast.NullValue()
 
     if isinstance(input_type, ListType):
-        if is_iterable(value, strings=False):
+        # A mapping is one item (an input object, a structured scalar value),
+        # not the list of its keys.
+        if is_iterable(value, strings=False) and not isinstance(value, dict):
             return _ast.ListValue(
                 values=[
                     ast_node_from_value(
